@@ -22,6 +22,7 @@ pub mod c12;
 pub mod c13;
 pub mod c14;
 pub mod c15;
+pub mod c16;
 pub mod c19;
 #[cfg(feature = "events")]
 pub mod c17;
